@@ -937,6 +937,13 @@ func (e *Env) callExpr(c *CExpr) val {
 		a := e.eval(c.Args[0])
 		vc.regComp("SendAttempts", "(Array Int Int)")
 		return intVal(sel(vc.get(e.cur, "SendAttempts"), a.t))
+	case "quo":
+		// quo(a, b): Go's integer quotient (truncated toward zero), unwrapped
+		argn(2)
+		a, b := e.eval(c.Args[0]), e.eval(c.Args[1])
+		q := ite(app(">=", a.t, "0"), ite(app(">", b.t, "0"), app("div", a.t, b.t), app("-", app("div", a.t, app("-", b.t)))),
+			ite(app(">", b.t, "0"), app("-", app("div", app("-", a.t), b.t)), app("div", app("-", a.t), app("-", b.t))))
+		return val{q, a.typ, sInt}
 	case "hits":
 		// hits("call f#k"): how many times this activation has executed that call site so far (ghost)
 		argn(1)
